@@ -164,6 +164,25 @@ def corpus(seed, n):
     for i, (t, attr) in enumerate([("Hash", "Hash(method = \"hash_tagged::<H>\")"), ("Hash", "Hash(method(\"HH::h::<H>\"))"), ("Hash", "Hash(method(hash_tagged::<H>))"),
                                    ("Debug", "Debug(method = \"Educe__DebugField::f\")"), ("Debug", "Debug(method(\"x::<Educe__RawString>\"))")]):
         cases.append(("m%d" % i, Hand([t]), "#[derive(Educe)]\n#[educe(%s)]\nstruct S { #[educe(%s)] a: u8, b: u8 }\n" % (t if i != 4 else "Debug(name = false)", attr)))
+    # field types in parentheses (what `macro_rules!` splices): shared helpers look through them (unsized tails under Debug, literal
+    # defaults in their natural type, the referent of Deref) whatever features are on
+    pk = 0
+    for t in G.ALL_TRAITS:
+        sp = {"Into": "Into(u64)"}.get(t, t)
+        d1, d2, d3 = ("#[educe(Default = 5_000_000_000)] ", "#[educe(Default = \"x\")] ", "#[educe(Default = 1.5)] ") if t == "Default" else ("", "", "")
+        mk = {"Deref": "#[educe(Deref)] ", "DerefMut": "#[educe(DerefMut)] ", "Into": "#[educe(Into(u64))] "}.get(t, "")
+        bodies = ["struct S<T> { %sa: (u64), %ss: (&'static str), %sf: ((f64)), %sr: (T) }" % (d1 if t != "Into" else mk, d2, d3, mk if t != "Into" else ""),
+                  "enum E<T> { %sV(%s(i64), %s(T)), W { x: ((T)) } }" % ("#[educe(Default)] " if t == "Default" else "", "#[educe(Default = 7)] " if t == "Default" else "", mk if t in ("Deref", "DerefMut") else "")]
+        if t in ("Debug", "PartialEq", "Eq", "PartialOrd", "Ord", "Hash"):
+            bodies += ["struct S { a: u8, b: ([u8]) }", "struct S(u8, (str));", "struct S<T: ?Sized> { a: (u8), b: (T) }",
+                       "struct S { a: u8, b: (dyn ::core::fmt::Debug + Send) }"]
+        if t in ("Deref", "DerefMut"):
+            bodies = [b for b in bodies if not b.startswith("enum")] + ["struct S<'a, T>((&'a mut (T)));", "struct S<'a>(u8, %s((&'a mut [u8])));" % mk]
+        if t == "Into":
+            bodies = bodies[:1]
+        for b in bodies:
+            cases.append(("p%d" % pk, Hand([t]), "#[derive(Educe)]\n#[educe(%s)]\n%s\n" % (sp, b)))
+            pk += 1
     # one trait educed alone, a field attribute under the name of every OTHER trait: the all-features build refuses it
     # ("the trait is not used"), a build in which that other trait is disabled has to refuse it as well
     fattrs = {"Debug": ["Debug(ignore)", "Debug = false", "Debug(name = x)"], "Clone": ["Clone(method(f))"], "Copy": ["Copy"],
